@@ -136,9 +136,10 @@ def run_property(pid, tier="quick", seed=0, relock=False, only=None, verbose=Tru
     all_obls = [(cx, o) for cx in res.cxs for o in cx.obls]
     canaries = [(cx, o) for cx, o in all_obls if o.kind == "canary"]
     real = [(cx, o) for cx, o in all_obls if o.kind != "canary"]
-    for cx, o in canaries:
-        if o.status == "unsat":
-            res.errors.append(("vacuous", f"{o.oid}: `False` is provable at a return point (contradictory hypotheses)"))
+    for cx in res.cxs:
+        cs = [o for o in cx.obls if o.kind == "canary"]
+        if cs and all(o.status == "unsat" for o in cs):
+            res.errors.append(("vacuous", f"{cx.fn}: `False` is provable at every return point (contradictory hypotheses)"))
     # functions must have at least one canary (a reachable return)
     for cx in res.cxs:
         if getattr(cx, "nreturns", 1) == 0 and not getattr(cx, "is_lemma", False):
@@ -162,6 +163,9 @@ def run_property(pid, tier="quick", seed=0, relock=False, only=None, verbose=Tru
     # ---- 4. failed obligations
     failed = [(cx, o) for cx, o in real if o.status != "unsat"]
     for cx, o in failed:
+        if o.status == "error":
+            res.errors.append(("crash", f"{o.oid}: solver error {o.reason[:300]}"))
+            continue
         k = match_known(known, pid, o.kind_id)
         if k is not None:
             res.known.append((k, o))
@@ -301,7 +305,7 @@ def finish(pid, tier, seed, res, kinds_now, level_claimed, assumptions, bounded_
         "checker_cmd": f"./check {pid} --tier {tier}",
         "trusted_base": sorted(trusted),
         "explanation": (f"{n_dis}/{n_obl} verification conditions generated from the current /repo source were discharged "
-                        f"(back ends: {by_solver}); canaries refuted: {sum(1 for cx in res.cxs for o in cx.obls if o.kind == 'canary' and o.status != 'unsat')}; "
+                        f"(back ends: {by_solver}); return-point canaries refuted (reachable returns): {sum(1 for cx in res.cxs for o in cx.obls if o.kind == 'canary' and o.status != 'unsat')}; "
                         + (f"bounded stand-ins (never counted as proved): {[n['name'] for n in bounded]}; " if bounded else "")
                         + (f"open known findings: {len(res.known)}; " if res.known else "")),
         "functions_under_contract": functions,
